@@ -39,4 +39,4 @@ package server
 
 //@ property C08: server.jobToResult/ensures[C08.*] server.jobToResult/loop*
 //@ property C15: server.(*server).listPipelineJobs$1/ensures[C15.*] server.jobToResult/ensures[C15.*] server.jobToResult/loop* server.*/safety
-//@ property C13: server.*/lock[read] server.*/lock[write] server.*/call-pre[*.lockmode]*
+//@ property C13: server.*/lockproto[*] server.*/lock[read] server.*/lock[write] server.*/call-pre[*.lockmode]*
